@@ -10,10 +10,14 @@
   `Float`, i.e. they are statements about the f64 computation as it runs.
   Helper lemmas: `ClarabelProofs/Lemmas/SolverNSLoop.lean`.
 
-  (A file of its own; NOT yet imported by `Props/C04.lean`.)
+  (A file of its own, imported by `Props/C04.lean`.)
+
+  Second half of the file: PANIC-FREEDOM of this model (`ns_no_panic` and its parts), the analogue of
+  `C04.full_no_panic` (`Props/C04NoPanic.lean`).  Helper lemmas: `Lemmas/SolverNSNoPanic*.lean`.
 -/
 import ClarabelProofs.Lemmas.SolverNSLoop
 import ClarabelProofs.Lemmas.SolverNSExample
+import ClarabelProofs.Lemmas.SolverNSNoPanicExample
 
 namespace Clarabel.C04
 open Clarabel Clarabel.SolverNS
@@ -96,6 +100,123 @@ theorem ns_solution_lengths {P : Csc α} {q : Array α} {A : Csc α} {b : Array 
 
 end ns
 
+
+/-! ## Panic-freedom of the model with nonsymmetric cones
+
+  In the model every Rust panic is the error `ModelErr.panic site`.  With exponential / power /
+  generalised power cones there are two sites that are conditions on the NUMBERS and that no
+  structural invariant can exclude for the f64 computation (`SolverNS.NumSite`):
+    * `"argument not in supported range"` — the `panic!` of `ExponentialCone::_wright_omega(z)` for
+      `z < 0` (`gradient_primal` under the primal–dual scaling, `barrier_primal` in
+      `backtrack_step_to_barrier`); exact arithmetic gives `z > 1` on the interior of the cone, the
+      f64 evaluation of `1 − s₁/s₂ − log(s₂/s₃)` is not covered by any scalar law used here;
+    * `"backtrack_search: fuel"` — the model's fuel for the UNBOUNDED Rust `loop` of
+      `backtrack_search` (in the code: non-termination, e.g. for a NaN step, not a panic).
+  EVERYTHING ELSE is excluded for all well-formed inputs, at class [S]: every index read (dense
+  3×3 blocks, the generalised power cone's sparse expansion maps `p, q, r, D` into the KKT value
+  array, the per-cone slices of `z, s, dz, ds`, `Hsblocks`), every length `assert`, every
+  `unreachable!()` arm of the nonsymmetric cones (`margins`, `scaled_unit_shift`,
+  `set_identity_scaling`: only reached when every cone is symmetric), `assert!(ζ > 0)` of
+  `GenPowerCone::update_dual_grad_H` (guarded by the same test in `update_scaling`),
+  `backtrack_step_to_barrier` (50 contractions at most), the model's pass budget `max_iter + 3`. -/
+section nsnopanic
+variable {α : Type} [Add α] [Sub α] [Mul α] [Div α] [Neg α] [LT α] [LE α] [DecidableLT α]
+  [DecidableLE α] [BEq α] [OfNat α 0] [OfNat α 1] [OfNat α 2] [OfNat α 3] [OfNat α 4] [OfNat α 100]
+  [OfNat α 1000] [OfScientific α] [FloatLike α]
+open Clarabel.Solver (NoPanic FmaxOK PivotOK)
+
+/-- [S] `C04.ns_new_no_panic`: `DefaultSolver::new` never panics on well-formed input — `InputOKN`:
+`P`, `A` canonical CSC, consistent dimensions, `Σ nvars = m`, and every generalised power cone passes
+its construction guard (`GenPowerConeData::new`: exponents `> 0`, `|1 − Σα| < ε·len/2`; the power
+cone's exponent is not checked by the code and needs nothing) —, `n ≥ 1`, `perm` a permutation of the
+KKT dimension of the internal problem (`PermForN`: 2 extra rows per sparse second-order cone, 3 per
+generalised power cone) and `PivotOK`.  It may return `.err` (PSD cone), never `.panic`. -/
+theorem ns_new_no_panic {P : Csc α} {q : Array α} {A : Csc α} {b : Array α}
+    {cones : List (ConeT α)} {st : SolverNS.Settings α} {perm : Array Nat}
+    (hin : SolverNS.InputOKN P q A b cones) (hn : 0 < P.n)
+    (hperm : SolverNS.PermForN P q A b cones st perm) (hpiv : PivotOK st.lin) :
+    NoPanic (SolverNS.Solver.new P q A b cones st perm) :=
+  SolverNS.solverNew_noPanicQ hin hn hperm hpiv
+
+/-- [S] `C04.ns_new_establishes_invariant`: every solver object `new` returns satisfies the state
+invariant `SolverNS.SolverInvN`: lengths of the iterate / residual / step / previous-iterate vectors
+and of the seven work vectors of the KKT system; cone objects consistently sized (`ConeFull`: for a
+generalised power cone `grad, p, z` of length `dim1 + dim2`, `q, d1` of length `dim1`, `r` of length
+`dim2`) and covering the `m` rows; well-formed data; for the linear solver object the lengths of
+`x, b, work1, work2, dsigns, Hsblocks`, every index of the `Hs` / diagonal / expansion maps (soc
+`u, v, D`; genpow `p, q, r, D`) a slot of the KKT value array, the QDLDL workspace; the solution
+object sized for the user's problem. -/
+theorem ns_new_establishes_invariant {P : Csc α} {q : Array α} {A : Csc α} {b : Array α}
+    {cones : List (ConeT α)} {st : SolverNS.Settings α} {perm : Array Nat}
+    (hin : SolverNS.InputOKN P q A b cones) (hn : 0 < P.n)
+    (hperm : SolverNS.PermForN P q A b cones st perm) (hpiv : PivotOK st.lin)
+    {S : SolverNS.Solver α} (h : SolverNS.Solver.new P q A b cones st perm = .ok S) :
+    SolverNS.SolverInvN S :=
+  SolverNS.solverNew_invQ hin hn hperm hpiv h
+
+/-- [S] `C04.ns_solve_keeps_invariant`: on every solver object satisfying the invariant — the ones
+`new` builds, and the ones an earlier `solve()` left behind — `solve()` returns `.ok` and the
+invariant holds again (so the second, third, … `solve()` are covered), or it stops at one of the two
+numerical-domain sites.  It never returns `.err`. -/
+theorem ns_solve_keeps_invariant (hf : FmaxOK α) {S : SolverNS.Solver α} (st : SolverNS.Settings α)
+    (h : SolverNS.SolverInvN S) :
+    SolverNS.OkOr SolverNS.NumSite (S.solve st) (fun r => SolverNS.SolverInvN r.S) :=
+  SolverNS.solve_okOrN hf (Or.inl rfl) (Or.inr rfl) st h
+
+/-- [S] `C04.ns_invariant_kept`: whatever a `solve()` that returns leaves behind satisfies the invariant
+again — with NO hypothesis on the scalar type (not even `FmaxOK`: the statement is about a call that
+did return). -/
+theorem ns_invariant_kept {S : SolverNS.Solver α} {st : SolverNS.Settings α} {r : SolverNS.SolveResult α}
+    (h : SolverNS.SolverInvN S) (hr : S.solve st = .ok r) : SolverNS.SolverInvN r.S :=
+  (SolverNS.solve_inv_of_ok h hr).2
+
+/-- [S] `C04.ns_no_panic` (the analogue of `C04.full_no_panic` for the model with exponential /
+power / generalised power cones): for all well-formed inputs `new` does not panic; the object it
+returns satisfies the invariant; and every `solve()` on an object satisfying the invariant
+* returns `.ok r` with the invariant on `r.S` again, or
+* returns `.error (.panic site)` with `site` one of the two numerical-domain sites
+  (`"argument not in supported range"`: `_wright_omega` of an exponential cone;
+  `"backtrack_search: fuel"`: the model's fuel for the unbounded `loop` of `backtrack_search`),
+and nothing else (no `.err`, no other `.panic`: every index read in range, every assert of the
+nonsymmetric code paths satisfied, the barrier back-tracking within its 50 contractions, the pass
+budget not exhausted).
+NOT PROVED (and not provable at class [S]): that the two remaining sites are unreachable.  The first
+needs floating-point reasoning about `1 − s₁/s₂ − log(s₂/s₃)` on the points `step_length` accepted;
+the second is a termination statement about `α ← step·α` until `α < α_min`, false for a NaN `α`. -/
+theorem ns_no_panic {P : Csc α} {q : Array α} {A : Csc α} {b : Array α}
+    {cones : List (ConeT α)} {st : SolverNS.Settings α} {perm : Array Nat}
+    (hin : SolverNS.InputOKN P q A b cones) (hn : 0 < P.n)
+    (hperm : SolverNS.PermForN P q A b cones st perm) (hpiv : PivotOK st.lin) (hf : FmaxOK α) :
+    NoPanic (SolverNS.Solver.new P q A b cones st perm) ∧
+      ∀ S, SolverNS.Solver.new P q A b cones st perm = .ok S → SolverNS.SolverInvN S ∧
+        SolverNS.OkOr SolverNS.NumSite (S.solve st) (fun r => SolverNS.SolverInvN r.S) :=
+  SolverNS.solver_noPanicN hin hn hperm hpiv hf (Or.inl rfl) (Or.inr rfl)
+
+/-- [S] `ns_no_panic` in the literal form: a panic of `solve()` is at one of the two
+numerical-domain sites, and `solve()` never answers "outside the model" -/
+theorem ns_solve_panics_only_numerically {P : Csc α} {q : Array α} {A : Csc α} {b : Array α}
+    {cones : List (ConeT α)} {st : SolverNS.Settings α} {perm : Array Nat}
+    (hin : SolverNS.InputOKN P q A b cones) (hn : 0 < P.n)
+    (hperm : SolverNS.PermForN P q A b cones st perm) (hpiv : PivotOK st.lin) (hf : FmaxOK α)
+    {S : SolverNS.Solver α} (h : SolverNS.Solver.new P q A b cones st perm = .ok S) :
+    (∀ site, S.solve st = .error (.panic site) →
+        site = "argument not in supported range" ∨ site = "backtrack_search: fuel")
+      ∧ (∀ kind, S.solve st ≠ .error (.err kind))
+      ∧ (∀ r, S.solve st = .ok r → SolverNS.SolverInvN r.S) := by
+  have hs := ((ns_no_panic hin hn hperm hpiv hf).2 S h).2
+  exact ⟨fun site hp => hs.panic_site hp, fun k => hs.not_err k, fun r hr => hs.of_ok hr⟩
+
+/-- [S] `C04.ns_solve_iterate`: any number of successive `solve()` calls on one solver object: each
+of them is covered (the invariant is re-established by every successful call) -/
+theorem ns_solve_iterate (hf : FmaxOK α) (st : SolverNS.Settings α) (k : Nat) {S : SolverNS.Solver α}
+    (h : SolverNS.SolverInvN S) :
+    SolverNS.OkOr SolverNS.NumSite
+      (Nat.rec (motive := fun _ => MErr (SolverNS.Solver α)) (pure S)
+        (fun _ acc => acc >>= fun T => (T.solve st).map (·.S)) k) SolverNS.SolverInvN :=
+  SolverNS.solve_iterate_okOrN hf (Or.inl rfl) (Or.inr rfl) st k h
+
+end nsnopanic
+
 /-! ### non-vacuity: concrete runs of the model with an exponential cone, evaluated by the kernel
 at `Int` (`Lemmas/SolverNSExample.lean`) -/
 namespace NSExamples
@@ -112,6 +233,18 @@ example : (run 1).toOption.map summary = some (2, .maxIterations, 1, [false, tru
 example : (run 0).toOption.map summary = some (1, .maxIterations, 0, [false]) := run0
 /-- `new` succeeds on the example (hypothesis `hn` of `ns_solution_lengths`) -/
 example : (newSolver 3).toOption.isSome = true := by decide +kernel
+
+/-- the hypotheses of `ns_no_panic` hold on the example (one variable, a nonnegative and an exponential
+cone): well-formed input, the ordering, the two scalar laws … -/
+example : SolverNS.InputOKN P #[1] A #[1, 1, 1, 1] ([.nonneg 1, .exp] : List (ConeT Int)) := exInputOKN
+example : SolverNS.PermForN P #[1] A #[1, 1, 1, 1] ([.nonneg 1, .exp] : List (ConeT Int)) (st 3) #[0, 1, 2, 3, 4] :=
+  exPermForN
+example : Clarabel.Solver.PivotOK (st 3).lin := exPivotOK 3
+example : Clarabel.Solver.FmaxOK Int := exFmaxOK
+/-- … `new` returns a solver object satisfying the invariant, its `solve()` returns `.ok` (neither
+numerical-domain site is hit on this run) and the invariant holds on the object it leaves -/
+example : ∃ S r, newSolver 3 = .ok S ∧ SolverNS.SolverInvN S ∧ S.solve (st 3) = .ok r ∧ SolverNS.SolverInvN r.S :=
+  exSolve_inv
 
 end NSExamples
 
